@@ -206,6 +206,12 @@ class ExecutorBase:
                 if not z3.is_true(z3.simplify(ep)):
                     st.assume(z3.Implies(Val.is_VRef(term),
                                          z3.ForAll([k], z3.Implies(z3.Select(st.read("$dhas", RID(term)), k), ep))))
+            if n == "set" and len(ty.args) == 1 and _depth < 1 and not type(st).qf_mode:
+                k = z3.Const("ty!k", Val)
+                ep = self.type_pred(k, ty.args[0], fr, _depth + 1)
+                if not z3.is_true(z3.simplify(ep)):
+                    st.assume(z3.Implies(Val.is_VRef(term),
+                                         z3.ForAll([k], z3.Implies(z3.Select(st.read("$dhas", RID(term)), k), ep))))
         elif n in ("any", "self"):
             c = None
         else:
@@ -591,6 +597,15 @@ class ExecutorBase:
 
     # ------------------------------------------------------------------------------------ comparisons
     def ev_Compare(self, node, fr):
+        # `len([e for x in xs if c]) > 0` inside a quantified context: exactly `any(c for x in xs)` (a filter comprehension cannot
+        # be axiomatised under a binder; the list itself is not otherwise observable)
+        if self.pure and len(node.ops) == 1 and isinstance(node.ops[0], ast.Gt) and isinstance(node.comparators[0], ast.Constant) \
+                and node.comparators[0].value == 0 and isinstance(node.left, ast.Call) and isinstance(node.left.func, ast.Name) \
+                and node.left.func.id == "len" and len(node.left.args) == 1 and isinstance(node.left.args[0], ast.ListComp) \
+                and len(node.left.args[0].generators) == 1:
+            lc = node.left.args[0]
+            ge = ast.GeneratorExp(elt=ast.Constant(value=True), generators=lc.generators)
+            return self.quantified_genexp("any", ge, fr)
         left = self.ev(node.left, fr)
         res = []
         for op, rn in zip(node.ops, node.comparators):
